@@ -6,7 +6,7 @@ CONSTANTS
     Variants = {"plain", "ia", "derived"}
     ColSets = {{"k"}, {"i"}, {"x"}, {"k", "i"}, {"k", "x"}, {"i", "x"}, {"k", "i", "x"}, {"q"}, {"k", "q"}, {"x", "q"}, {"i", "x", "q"}}
     Kinds = {"steady_state", "time_course", "protocol", "protocol_time_course", "mc.steady_state", "mc.time_course", "mc.scan_steady_state"}
-    FailModes = {"intfail", "nosteady", "raise"}
+    FailModes = {"intfail", "nosteady", "raise", "latestep"}
     LabelSchemes = {"range", "shuffled", "strings", "repeated"}
     KeyedByLabel = FALSE
     NameSchemes = {"plain", "keyword", "underscore", "operator", "mixed"}
